@@ -2762,6 +2762,10 @@ fn format_endless(
 	buffer: &mut FormatBuffer,
 ) -> Result<(), anyhow::Error>
 {
+	if let Expression::Parenthesized { inner } = argument
+	{
+		return format_endless(inner, llvm, buffer);
+	}
 	let cstr_address = match argument
 	{
 		Expression::Deref {
